@@ -1,8 +1,8 @@
 (* C07 — Splitting yields exact restrictions tiling the object; appending re-joins them.
    Model: Model/Split.v (transcription of SplineObject.split incl. the periodic roll, BSplineBasis.roll). *)
 From Coq Require Import List Arith Reals Lra Lia Bool ZArith QArith.
-From SplipyModel Require Import Spec.BSpline Model.Num Model.BasisDef Model.Tensor Model.Obj Model.KnotInsert Model.Split
-  Proofs.TensorLemmas Proofs.TensorApply Proofs.SplitProofs Extract.Exec.
+From SplipyModel Require Import Spec.BSpline Spec.Join Model.Num Model.BasisDef Model.Tensor Model.Obj Model.KnotInsert Model.Split Model.Append
+  Proofs.TensorLemmas Proofs.TensorApply Proofs.SplitProofs Proofs.AppendProofs Extract.Exec.
 Import ListNotations.
 Open Scope R_scope.
 
@@ -27,8 +27,40 @@ Theorem C07_split_piece_is_restriction (side : bool) (k : nat -> R) : sorted k -
 Proof. intros Hk q n a m t Ham Ht. exact (split_piece_is_restriction side k Hk q n a m t Ham Ht). Qed.
 Print Assumptions C07_split_piece_is_restriction.
 
+(* 3. joining at a C0 knot (the converse of 1): if K has q copies of e at the indices J+1 .. J+q, the spline over K
+      with coefficients c is, left of e, the spline over K1 (K up to index J+q, then e) with c_0 .. c_J, and, right of
+      e, the spline over K2 (e, then K from index J+1 on) with c_J, c_{J+1}, ...; both one-sided variants *)
+Theorem C07_join (side : bool) (K : nat -> R) (q J : nat) (e : R) (c : nat -> R) n t : sorted K -> (1 <= q)%nat ->
+  (forall m, (1 <= m <= q)%nat -> K (J + m)%nat = e) -> (J < n)%nat ->
+  (left_of side e t -> sumf (fun i => c i * B side K q i t) 0 n = sumf (fun i => c i * B side (K1 K q J e) q i t) 0 (S J)) /\
+  (right_of side e t -> sumf (fun i => c i * B side K q i t) 0 n = sumf (fun m => c (J + m)%nat * B side (K2 K J e) q m t) 0 (n - J)).
+Proof. intros HK Hq He Hn. split; [exact (join_left side K HK q J e Hq He c n t Hn)|exact (join_right side K HK q J e Hq He c n t Hn)]. Qed.
+Print Assumptions C07_join.
+
+(* 4. Curve.append: with the knot vector the model (and the code) builds from two clamped knot vectors of the same
+      order p >= 2 and the control net c1 ++ tl c2, the joined curve is the first curve left of the junction and the
+      second curve (parameter shifted by end1 - start2) right of it, provided they share the junction control point.
+      Coordinate by coordinate, hence for rational curves in homogeneous form too. *)
+Theorem C07_append (k1 k2 : list R) (p : nat) (c1 c2 : list R) (side : bool) (t : R) :
+  (2 <= p)%nat -> sorted (@kn R NumR k1) -> sorted (@kn R NumR k2) -> (2 * p <= length k1)%nat -> (2 * p <= length k2)%nat ->
+  (forall i, (i < p)%nat -> nth (length k1 - 1 - i) k1 0 = last k1 0) -> (forall i, (i < p)%nat -> nth i k2 0 = hd 0 k2) ->
+  length c1 = (length k1 - p)%nat -> length c2 = (length k2 - p)%nat -> nth (length k1 - p - 1) c1 0 = nth 0 c2 0 ->
+  let K := @append_knots R NumR p k1 k2 in let n := (length k1 - p + (length k2 - p) - 1)%nat in
+  (left_of side (last k1 0) t ->
+     sumf (fun i => nth i (c1 ++ tl c2) 0 * B side (@kn R NumR K) (p - 1) i t) 0 n
+     = sumf (fun i => nth i c1 0 * B side (@kn R NumR k1) (p - 1) i t) 0 (length k1 - p)) /\
+  (right_of side (last k1 0) t ->
+     sumf (fun i => nth i (c1 ++ tl c2) 0 * B side (@kn R NumR K) (p - 1) i t) 0 n
+     = sumf (fun m => nth m c2 0 * B side (@kn R NumR k2) (p - 1) m (t - last k1 0 + hd 0 k2)) 0 (length k2 - p)).
+Proof.
+  intros Hp S1 S2 L1 L2 He Hs Hc1 Hc2 Hj. cbv zeta. split.
+  - exact (append_left k1 k2 p Hp S1 S2 L1 L2 He Hs c1 c2 Hc1 Hc2 side t).
+  - exact (append_right k1 k2 p Hp S1 S2 L1 L2 He Hs c1 c2 Hc1 Hc2 Hj side t).
+Qed.
+Print Assumptions C07_append.
+
 (* PARTIAL: that split() cuts exactly at knots of multiplicity 'order' (via C04 insertion), the tiling of the
-   domain, the periodic branch (roll) and append are covered by the transcription + correspondence (L1) and by
+   domain, the periodic branch (roll) and the order/rationality unification inside append (C05, C09) are covered by the transcription + correspondence (L1) and by
    the statement evaluated on the implementation (L2) only. *)
 
 (* non-vacuity, executed on Q: splitting a rational quadratic curve at a new point gives two pieces that
